@@ -248,6 +248,34 @@ def random_duplicate_isar(rng):
     return out
 
 
+def random_isar_includes(rng):
+    """Two isar files, the main one including the other: typedefs, constants and structs whose names and references
+    cross the file boundary in both directions (a name used in the included file may only exist in the includer),
+    constants whose value is an expression over type names or over each other."""
+    out = []
+    for _ in range(2):
+        pool = ['M', 'N', 'P'][:rng.randint(2, 3)]
+        parts = {'inc': [], 'main': []}
+        for i in range(rng.randint(3, 7)):
+            x = rng.choice(pool)
+            r = rng.random()
+            if r < 0.4:
+                item = '<typedef name="%s" type="%s"/>' % (x, rng.choice(pool))
+            elif r < 0.55:
+                item = '<typedef name="%s" primitiveType="16 bit integer unsigned"/>' % x
+            elif r < 0.8:
+                item = '<constant name="K%d" value="%s"/>' % (i, rng.choice(['%s + 1', '%s', '2 * %s', 'K0 + %s', '%s * K1']) %
+                                                                rng.choice(pool + ['K0', 'K1', 'K%d' % i]))
+            else:
+                item = ('<struct name="S%d"><member name="m" type="%s"/><member name="a" type="u8"><dimension size="%s"/>'
+                        '</member></struct>' % (i, rng.choice(pool), rng.choice(['K0', 'K1', '3'] + pool)))
+            parts[rng.choice(['inc', 'main'])].append(item)
+        main = ('<x xmlns:xi="http://www.w3.org/2001/XInclude">\n<xi:include href="inc.xml"/>\n%s\n</x>\n'
+                % '\n'.join(parts['main']))
+        out.append(('isar-include-cross-references', main, {'inc.xml': '<x>\n%s\n</x>\n' % '\n'.join(parts['inc'])}))
+    return out
+
+
 def run_shard(spec):
     acc = Acc()
     stepper = pc.Stepper()
@@ -303,6 +331,8 @@ def run_shard(spec):
                         go('patch-' + fam, xml, fmt='isar', patch=t)
                 for fam, t in random_cyclic_isar(rng) + random_duplicate_isar(rng):
                     go(fam, t, fmt='isar')
+                for fam, t, fl in random_isar_includes(rng):
+                    go(fam, t, fmt='isar', files=fl)
     finally:
         stepper.close()
     return acc.done()
@@ -312,7 +342,7 @@ def finish(ctx, merged, specs):
     if specs and specs[0]['kind'] == 'replay':
         return
     need = ['outcome:ok', 'outcome:designed', 'family:structural', 'family:replace-token', 'family:expression',
-            'family:isar-random-cycle', 'family:isar-duplicate-names', 'family:isar-expression',
+            'family:isar-random-cycle', 'family:isar-duplicate-names', 'family:isar-expression', 'family:isar-include-cross-references',
             'family:options', 'family:include', 'cli_runs', 'positional_diagnostics']
     missing = [f for f in need if not merged['counters'].get(f)]
     if missing and not merged['inconclusive']:
